@@ -12,7 +12,7 @@ EPS = Fraction(1, 2 ** 52)
 RULE = ('inv on: ALL 2x2 matrices with entries -3..3 (2401), ALL 3x3 with entries -1..1 (19683), 3x3 with entries -2..2 (quick: sample, '
         'thorough: all 1953125), random n<=8 by class: dense, small integers, diagonally dominant, matrices forcing cyclic / arbitrary row '
         'permutations (shifted identity with noise, shuffled rows of a dominant matrix, scaled permutation matrices: non-symmetric P), '
-        'singular (zero row, zero column, repeated row, scaled row, entries -2..2 with det 0 for n up to 8), 1x1, 0x0; non-square and empty shapes; '
+        'singular (zero row, zero column, repeated row, scaled row, entries -2..2 with det 0 for n up to 8), whole matrices scaled by 2^-60..2^60, 1x1, 0x0; non-square and empty shapes; '
         'inv2 (inverse of the inverse) on the well-conditioned classes.  Integer-valued inputs are run both as Arr2D<f64> and Arr2D<i32> '
         '(the harness reports any difference).  distinct = distinct case line; non-trivial = square with n >= 2')
 TRUSTED = ['extraction of the float instance (ExtrOcamlBasic, ExtrOCamlFloats, ExtrOCamlInt63) and ocaml/c10.ml',
@@ -23,11 +23,8 @@ ASSUMPTIONS = ['theorems are about the R instance (exact arithmetic); rounding i
                '|L^||U^| bounded through |l|<=1 and the worst-case growth factor of partial pivoting); it dominates n*eps*(|A||B^|)_ij',
                'left residual envelope: |B^ A - I| <= 2*|B^|*E*|A| (from B^A - I = A^-1 (A B^ - I) A), demanded when ||E||_inf <= 1/4',
                'round trip: |inverse(B^) - A| <= 2*(E(A,B^)*|A| + |A|*E(B^,A\')) demanded when cond_inf(A) <= 1e4',
-               'must-factor: 1/(n*||A^-1||_inf) >= 2^-40 + n^3*2^n*eps*max|a|; must-refuse: a zero row, a zero column, two identical rows, '
-               'or a singular matrix of the exhaustive small-integer domain (2x2 entries -3..3, 3x3 entries -2..2)',
-               'NOT demanded: the SingularMatrix error for exactly singular small-integer matrices with n >= 4 (class singint): rounding leaves a last '
-               'pivot of a few 1e-16, above the absolute EPSILON threshold of plu, and a matrix with entries ~1e15 is returned; '
-               'e.g. [[-1,2,-2,0],[0,2,0,-2],[1,-1,1,2],[1,1,1,0]]']
+               'must-factor: 1/(n*||A^-1||_inf) >= 2*(n^3*2^n + 2n)*eps*max|a| (scale invariant); must-refuse: a zero row, a zero column, two identical rows, '
+               'or a singular integer matrix with entries in -2..2 of ANY size n <= 8 (2x2: -3..3)']
 PROFILES = {'quick': ['debug'], 'thorough': ['debug', 'release']}
 
 
@@ -155,12 +152,10 @@ def must_refuse(rows):
         if key in seen:
             return 'repeated row'
         seen.add(key)
-    # exhaustive small-integer domain of the quantifier (2x2 / 3x3): rounding cannot hide a zero determinant there.
-    # From n = 4 on it can (e.g. [[-1,2,-2,0],[0,2,0,-2],[1,-1,1,2],[1,1,1,0]] is factored with a last pivot of
-    # a few 1e-16): those inputs are judged by the general clauses only, see the report / ASSUMPTIONS.
-    if (n <= 2 and is_small_int_matrix(rows, 3)) or (n == 3 and is_small_int_matrix(rows, 2)):
+    # after the repair d0c7441 (threshold EPSILON * n * max|a_ij|) this holds for every n
+    if is_small_int_matrix(rows, 2) or (n <= 2 and is_small_int_matrix(rows, 3)):
         if det_int([[int(x) for x in r] for r in rows]) == 0:
-            return 'singular small-integer matrix (2x2 entries -3..3 / 3x3 entries -2..2)'
+            return 'singular matrix with entries in -2..2'
     return None
 
 
@@ -172,7 +167,7 @@ def must_factor_F(F, Finv):
         return False
     amax = max(abs(x) for r in F for x in r)
     s = 1 / (n * norm_inf(Finv))
-    return s >= Fraction(1, 2 ** 40) + Fraction(n ** 3 * 2 ** n, 2 ** 52) * amax
+    return s >= 2 * Fraction(n ** 3 * 2 ** n + 2 * n, 2 ** 52) * amax
 
 
 def mmul(X, Y):
@@ -429,7 +424,8 @@ def singular_int(rng, n):
         c = rng.randrange(n)
         a, b = rng.sample([i for i in range(n) if i != c], 2)
         sg = rng.choice([1, -1])
-        row = [sg * (m[a][j] + rng.choice([1, -1]) * m[b][j]) for j in range(n)]
+        s2 = rng.choice([1, -1])
+        row = [sg * (m[a][j] + s2 * m[b][j]) for j in range(n)]
         if all(abs(x) <= 2 for x in row):
             m[c] = row
             return m
@@ -476,9 +472,16 @@ def gen(rng, tier):
     for _ in range(200 * k):
         n = rng.randint(1, 8)
         yield mk('inv', singular(rng, n), 'singular')
-    for _ in range(120 * k):
+    for _ in range(240 * k):
         n = rng.randint(4, 8)
         yield mk('inv', singular_int(rng, n), 'singint')
+    for _ in range(120 * k):
+        n = rng.randint(1, 8)
+        m = diag_dominant(rng, n) if rng.random() < 0.4 else rnd_dense(rng, n)
+        sc = 2.0 ** rng.choice([-60, 60, -40, 40, rng.randint(-60, 60)])
+        m = [[x * sc for x in r] for r in m]
+        yield mk('inv', m, 'scaled')
+        yield mk('inv2', m, 'scaled')
     shapes = [(0, 1), (0, 3), (1, 0), (3, 0), (1, 2), (2, 1), (2, 3), (3, 2), (1, 5), (5, 1), (4, 3), (3, 4), (8, 7), (7, 8)]
     for (h, w) in shapes * (1 if quick else 5):
         rows = [[float(rng.randint(-3, 3)) if rng.random() < 0.5 else rng.uniform(-2, 2) for _ in range(w)] for _ in range(h)]
